@@ -1162,6 +1162,28 @@ func (tb *TB) fillInfo(ms ssa.Value, length ssa.Value) *FillInfo {
 							continue
 						}
 					}
+					if c.IsInvoke() && argIdx >= 0 {
+						// an interface method of the module: none of its implementations in the
+						// module writes through this parameter (the receiver is parameter 0)
+						n, all := 0, true
+						for _, e := range tb.p.CG().Out[u.Parent()] {
+							if e.Site != ssa.Instruction(u) || e.Callee == nil {
+								continue
+							}
+							n++
+							if e.Callee.Blocks == nil || !tb.p.inModule(e.Callee) {
+								all = false
+								continue
+							}
+							eff := tb.p.EffectsOf(e.Callee)
+							if eff == nil || eff.WritesParam[argIdx+1] {
+								all = false
+							}
+						}
+						if n > 0 && all && tb.p.inModuleType(c.Value.Type()) {
+							continue
+						}
+					}
 					writes++
 					fi.Reason = "passed to " + name
 				}
@@ -1706,4 +1728,14 @@ func (p *Program) globalUses(g *ssa.Global) []ssa.Instruction {
 		}
 	}
 	return p.guses[g]
+}
+
+// inModuleType: the (interface) type is declared in the analysed module.
+func (p *Program) inModuleType(t types.Type) bool {
+	n := namedOf(t)
+	if n == nil || n.Obj().Pkg() == nil {
+		return false
+	}
+	pp := n.Obj().Pkg().Path()
+	return pp == modPath || strings.HasPrefix(pp, modPath+"/")
 }
